@@ -670,6 +670,85 @@ def oracle_traces(case, got):
 
 # ---------------------------------------------------------------------------------------------------------
 
+# ---------------------------------------------------------------------------------------------------------
+# whole scenarios under a re-keyed table: decoders that look INSIDE their window (path lookups of a syscall, the
+# sampler's thread-info / stack records, the image records of a launch) must find the nested records under
+# whatever ids the supplied table gives their names — including a name listed under two ids.
+
+def rekey_case(rng):
+    from . import C13
+    while True:
+        dump = C13.gen_dump(rng, 'any')
+        if dump['events']:
+            break
+    codes = {int(k): v for k, v in dump['codes'].items()}
+    used = set(codes)
+
+    def fresh():
+        while True:
+            i = rand_eid(rng)
+            if i not in used and not (0x1320008 <= i <= 0x1320014):
+                used.add(i)
+                return i
+    alias = {}
+    for i, nm in codes.items():
+        if 0x1320008 <= i <= 0x1320014:               # the page-fault decoder selects these by a hard-coded id range (C20)
+            alias[i] = [i]
+            continue
+        r = rng.random()
+        alias[i] = [fresh()] if r < 0.35 else [i, fresh()] if r < 0.7 else [fresh(), fresh()] if r < 0.9 else [i]
+    table = [[a, codes[i]] for i, al in alias.items() for a in al]
+    rng.shuffle(table)
+    pick = {}
+    evs = []
+    for h in dump['events']:
+        b = bytes.fromhex(h)
+        dbg = int.from_bytes(b[48:52], 'little')
+        tid = int.from_bytes(b[40:48], 'little')
+        eid, q = dbg - dbg % 4, dbg % 4
+        if eid in alias:
+            key = (tid, eid)
+            if key not in pick:
+                pick[key] = rng.choice(alias[eid])
+            eid = pick[key]
+        evs.append((b[:48] + (eid | q).to_bytes(4, 'little') + b[52:]).hex())
+    return {'tmap': dump['tmap'], 'orig_events': dump['events'], 'orig_codes': dump['codes'], 'events': evs,
+            'codes': {str(k): v for k, v in table}, 'table_order': [k for k, _ in table],
+            'cfg': {'tid': None, 'classes': [], 'subclasses': [], 'process': None}, 'reqs': 't'}
+
+
+def rekey_line(case):
+    from . import C13
+    return C13.line(case)
+
+
+def rekey_impl(case):
+    from . import C13
+    # the table is handed over in the generated order (a name listed twice: either id may come last)
+    codes = {k: case['codes'][str(k)] for k in case['table_order']}
+    data = C13.dump_bytes(case)
+    p = C13.make_parser(case['cfg'])
+    return 'ok %s ;tid=N ;fc=- ;fs=- ;proc=N ;img=%d' % (C13.request(p, 't', data, codes), len(p.dyld_addresses))
+
+
+def rekey_oracle(case, got):
+    """The same scenario under the bundled ids: same traces (decoder, records, text, decoded payload)."""
+    from . import C13
+    if not got.startswith('ok '):
+        return ('traces:raises', 'decoding under a supplied table raised ' + got)
+    orig = dict(case, events=case['orig_events'], codes=case['orig_codes'])
+    codes0 = {int(k): v for k, v in orig['codes'].items()}
+    want = C13.request(C13.make_parser(case['cfg']), 't', C13.dump_bytes(orig), codes0)
+    have = C13.parse_answer(got)[0][0]
+    if have != want:
+        a, b = have.split(' '), want.split(' ')
+        i = next((k for k, (x, y) in enumerate(zip(a, b)) if x != y), min(len(a), len(b)))
+        return ('traces:table-not-honoured',
+                'a scenario whose names are listed under other ids (some under two ids) decodes differently: item %d is %s, '
+                'under the bundled ids %s' % (i, (a[i:i + 1] or ['<none>'])[0][:300], (b[i:i + 1] or ['<none>'])[0][:300]))
+    return None
+
+
 SECTIONS = {}
 
 
@@ -733,6 +812,13 @@ def correspondence(rep, rng, tier):
                 nontrivial_fn=lambda c, got: len(got) > 3,
                 rule='the real traces(v2 file, table): BSC_read/write/getpid/getuid, MACH_SCHED/MKRUNNABLE, '
                      'TRACE_DATA_NEWTHREAD/EXEC re-keyed to random ids; answer = trace class (as handler name) + window')
+    run_section(rep, 'traces-rekeyed', [rekey_case(rng) for _ in range(150 * (20 if big else 1))], rekey_line, rekey_impl,
+                rekey_oracle, nontrivial_fn=lambda c, got: '|' in got, skip_fn=lambda m: 'Unmodelled' in m,
+                kind_fn=lambda c, got: 'aliased' if len(c['codes']) > len(c['orig_codes']) else 'renumbered',
+                rule='whole scenarios (syscalls with path lookups, sampler windows with thread-info and stack records, launch '
+                     'windows with image records, page faults, strings, new-thread pairs) with every name moved to fresh ids and '
+                     '~half of the names listed under TWO ids (each thread using one of them, either id last in the table): '
+                     'traces vs the model and vs the same scenario under the bundled ids (decoder, records, text, payload)')
     if big:
         per_codepoint(rep)
 
@@ -745,6 +831,7 @@ RUNNERS = {
     'namecol': (line_namecol, impl_namecol, oracle_namecol),
     'gate': (lambda c: ' '.join(['decode', table_arg(c['table'])] + c['recs']), impl_gate, oracle_traces),
     'traces': (lambda c: ' '.join(['decode', table_arg(c['table'])] + c['recs']), impl_traces, oracle_traces),
+    'traces-rekeyed': (rekey_line, rekey_impl, rekey_oracle),
 }
 
 
